@@ -1,6 +1,158 @@
-(* Runner for property C16: wire arguments -> model -> wire result. Filled in by the C16 model. *)
+(* Runner for property C16: wire arguments -> Correct/Correct.v -> wire result.
+   Instantiation: T := unit (tax totals present or not), B := unit, calc := identity (the check
+   compares identifiers, type, series, code, dates and the preceding reference, which Calculate
+   leaves alone on normalised input - the premise calc_keeps_header of the theorems), digest := unit.
+
+   c16 correct <regime> <addons> xtoday xu_head xu_doc <opts> <state> <envelope> <copy_head 0|1>
+       (copy_head: 0 = the code as it stands, 1 = after fixes/C16-copy-header-stamps.diff)
+   c16 replicate xtoday xu_head xu_doc <state> <envelope>
+     regime   = ( ) | ( ( def ... ) )          addons = ( ( def ... ) ... )
+     def      = ( xschema ( xtype ... ) ( xext ... ) <reason 0|1> ( xstamp ... ) <copytax 0|1> )
+     opts     = ( opt ... )   opt = ( type xk ) ( series xs ) ( stamps ( addr ... ) ) ( reason xr ) ( ext xk xv )
+                                    ( issue xd ) ( copytax ) ( options <options> ) ( data <data> )
+     options  = ( <head: ( ) | ( ( addr ... ) )> xtype <opt issue> xseries ( addr ... ) xreason ( ( xk xv ) ... ) <copytax> <data> )
+     data     = ( nodata ) | ( bad ) | ( data <opt type> <opt issue> <opt series> <opt ( ( <opt prv> <opt val> ) ... )>
+                                              <opt reason> <opt ( ( xk xv ) ... )> <opt 0|1> )      opt x = ( ) | ( x )
+     state    = ( ( ( addr xprv xval ) ... ) next )
+     envelope = ( xuuid ( addr ... ) ( xsig ... ) doc )
+     doc      = ( xuuid xtype xseries xcode xissue <opt vd> <opt od> ( ref ... ) <taxes 0 no totals|1 no taxes|2 present> )
+     ref      = ( xuuid xtype <opt issue> xseries xcode xreason ( addr ... ) <tax 0|1> ( ( xk xv ) ... ) )
+   result:  ok <envelope'> ( source header stamps after: ( xprv xval ) ... ) ( addresses shared by the result's
+            first preceding reference and the source header )
+            with stamps printed as ( addr xprv xval );   or  ( err kind ) ( source header stamps after ) *)
 From Coq Require Import ZArith List String Bool.
-From Verif Require Import Base.Wire.
+From Verif Require Import Base.Wire Correct.Correct.
 Import ListNotations.
 
-Definition run_c16 (args : list V) : list V := [verr "not-implemented"].
+Definition T := unit.
+Definition B := unit.
+Notation docref := (docref T).
+Notation invoice := (invoice T B).
+Notation envelope := (Correct.envelope T B unit).
+
+Definition vopt (v : V) : option V := match v with VL [x] => Some x | _ => None end.
+Definition vobytes (v : V) : option bytes := option_map vs_ (vopt v).
+Definition vaddrs (v : V) : list addr := map vnat (vl v).
+Definition vpairs (v : V) : list (bytes * bytes) := map (fun p => (vs_ (nth 0 (vl p) (VS [])), vs_ (nth 1 (vl p) (VS [])))) (vl v).
+Definition vstrs (v : V) : list bytes := map vs_ (vl v).
+
+Definition def_in (v : V) : cdef :=
+  let l := vl v in
+  mkDef (vs_ (nth 0 l (VS []))) (vstrs (nth 1 l (VL []))) (vstrs (nth 2 l (VL []))) (vbool (nth 3 l (VI 0)))
+        (vstrs (nth 4 l (VL []))) (vbool (nth 5 l (VI 0))).
+Definition defs_in (v : V) : list cdef := map def_in (vl v).
+
+Definition data_in (v : V) : data_state :=
+  match vl v with
+  | tag :: r =>
+      if is_op tag "bad" then BadData
+      else if is_op tag "data" then
+        let g := fun i => nth i r (VL []) in
+        Data (mkData (vobytes (g 0%nat)) (vobytes (g 1%nat)) (vobytes (g 2%nat))
+                      (option_map (fun s => map (fun d => mkDS (vobytes (nth 0 (vl d) (VL []))) (vobytes (nth 1 (vl d) (VL [])))) (vl s)) (vopt (g 3%nat)))
+                      (vobytes (g 4%nat)) (option_map vpairs (vopt (g 5%nat))) (option_map vbool (vopt (g 6%nat))))
+      else NoData
+  | [] => NoData
+  end.
+
+Definition options_in (v : V) : options :=
+  let g := fun i => nth i (vl v) (VL []) in
+  mkOpts (option_map vaddrs (vopt (g 0%nat))) (vs_ (g 1%nat)) (vobytes (g 2%nat)) (vs_ (g 3%nat)) (vaddrs (g 4%nat))
+         (vs_ (g 5%nat)) (vpairs (g 6%nat)) (vbool (g 7%nat)) (data_in (g 8%nat)).
+
+Definition opt_in (v : V) : opt :=
+  match vl v with
+  | tag :: r =>
+      let a := nth 0 r (VL []) in
+      let b := nth 1 r (VL []) in
+      if is_op tag "type" then WithType (vs_ a)
+      else if is_op tag "series" then WithSeries (vs_ a)
+      else if is_op tag "stamps" then WithStamps (vaddrs a)
+      else if is_op tag "reason" then WithReason (vs_ a)
+      else if is_op tag "ext" then WithExtension (vs_ a) (vs_ b)
+      else if is_op tag "issue" then WithIssueDate (vs_ a)
+      else if is_op tag "copytax" then WithCopyTax
+      else if is_op tag "options" then WithOptions (options_in a)
+      else WithData (data_in a)
+  | [] => WithData (NoData)
+  end.
+
+Definition state_in (v : V) : state :=
+  mkSt (map (fun c => (vnat (nth 0 (vl c) (VI 0)), mkSC (vs_ (nth 1 (vl c) (VS []))) (vs_ (nth 2 (vl c) (VS []))))) (vl (nth 0 (vl v) (VL []))))
+       (vnat (nth 1 (vl v) (VI 0))).
+
+Definition ref_in (v : V) : docref :=
+  let g := fun i => nth i (vl v) (VL []) in
+  mkRef (vs_ (g 0%nat)) (vs_ (g 1%nat)) (vobytes (g 2%nat)) (vs_ (g 3%nat)) (vs_ (g 4%nat)) (vs_ (g 5%nat))
+        (vaddrs (g 6%nat)) (if vbool (g 7%nat) then Some tt else None) (vpairs (g 8%nat)).
+
+Definition doc_in (v : V) : invoice :=
+  let g := fun i => nth i (vl v) (VL []) in
+  mkInv (vs_ (g 0%nat)) (vs_ (g 1%nat)) (vs_ (g 2%nat)) (vs_ (g 3%nat)) (vs_ (g 4%nat)) (vobytes (g 5%nat)) (vobytes (g 6%nat))
+        (map ref_in (vl (g 7%nat)))
+        (match vz (g 8%nat) with 0%Z => None | 1%Z => Some None | _ => Some (Some tt) end) tt.
+
+Definition env_in (v : V) : envelope :=
+  let g := fun i => nth i (vl v) (VL []) in
+  mkEnv (vs_ (g 0%nat)) (vaddrs (g 1%nat)) (vstrs (g 2%nat)) tt (doc_in (g 3%nat)).
+
+(* ---- printing ---- *)
+Definition oV {A} (f : A -> V) (o : option A) : V := match o with Some x => VL [f x] | None => VL [] end.
+Definition pairs_out (m : list (bytes * bytes)) : V := VL (map (fun kv => VL [VS (fst kv); VS (snd kv)]) m).
+Definition stamp_out (h : heap) (a : addr) : V :=
+  match hget h a with
+  | Some c => VL [VN a; VS (prv c); VS (sval c)]
+  | None => VL [VN a]
+  end.
+Definition ref_out (h : heap) (r : docref) : V :=
+  VL [VS (r_uuid r); VS (r_type r); oV VS (r_issue r); VS (r_series r); VS (r_code r); VS (r_reason r);
+      VL (map (stamp_out h) (r_stamps r)); VB (match r_tax r with Some _ => true | None => false end); pairs_out (r_ext r)].
+Definition doc_out (h : heap) (i : invoice) : V :=
+  VL [VS (i_uuid i); VS (i_type i); VS (i_series i); VS (i_code i); VS (i_issue i);
+      oV VS (i_value_date i); oV VS (i_op_date i); VL (map (ref_out h) (i_preceding i))].
+Definition env_out (h : heap) (e : envelope) : V :=
+  VL [VS (e_uuid e); VL (map (stamp_out h) (e_stamps e)); VL (map VS (e_sigs e)); doc_out h (e_doc e)].
+
+Definition refusal_out (e : refusal) : V :=
+  match e with
+  | BadOptionsData => verr "bad-data"
+  | MissingType => verr "missing-type"
+  | NoCode => verr "no-code"
+  | MissingStamp _ => verr "missing-stamp"
+  | InvalidType => verr "invalid-type"
+  | MissingReason => verr "missing-reason"
+  | CalcError => verr "calculation"
+  end.
+
+Definition calc_id (i : invoice) : option invoice := Some i.
+
+Definition shared (src res : envelope) : V :=
+  match i_preceding (e_doc res) with
+  | p :: _ => VL (map VN (filter (fun a => existsb (Nat.eqb a) (e_stamps src)) (r_stamps p)))
+  | [] => VL []
+  end.
+
+Definition run_c16 (args : list V) : list V :=
+  match args with
+  | o :: rest =>
+    let op := opname o in
+    let g := fun i => nth i rest (VL []) in
+    if String.eqb op "correct" then
+      let src := env_in (g 7%nat) in
+      let st := state_in (g 6%nat) in
+      let src_stamps := fun h => VL (map (stamp_out h) (e_stamps src)) in
+      match env_correct calc_id (fun _ => tt) (vbool (g 8%nat)) (option_map defs_in (vopt (g 0%nat))) (map defs_in (vl (g 1%nat)))
+                        (vs_ (g 2%nat)) (vs_ (g 3%nat)) (vs_ (g 4%nat)) (map opt_in (vl (g 5%nat))) st src with
+      | (st', Ok e') => [VS (bs "ok"); env_out (st_heap st') e'; src_stamps (st_heap st'); shared src e']
+      | (st', Err x) => [refusal_out x; src_stamps (st_heap st')]
+      end
+    else if String.eqb op "replicate" then
+      let src := env_in (g 4%nat) in
+      let st := state_in (g 3%nat) in
+      match env_replicate calc_id (fun _ => tt) (vs_ (g 0%nat)) (vs_ (g 1%nat)) (vs_ (g 2%nat)) st src with
+      | (st', Ok e') => [VS (bs "ok"); env_out (st_heap st') e'; VL (map (stamp_out (st_heap st')) (e_stamps src)); shared src e']
+      | (st', Err x) => [refusal_out x; VL (map (stamp_out (st_heap st')) (e_stamps src))]
+      end
+    else [verr "unknown-c16-op"]
+  | [] => [verr "unknown-c16-op"]
+  end.
